@@ -103,7 +103,27 @@ META = {
     "in the evidence notes (internal-step tie / detail tie) and never reported as a violation.  Private names "
     "(module-level dict and Lock factory of _s3, _ensure_init, _build_name, the open / Path names of _mpu_fs, "
     "mpu_write as seen by upload) are looked up defensively; a stream whose private entry point is gone is skipped "
-    "with a note.",
+    "with a note.  Increment 3 - CRASH POINTS, paging, four threads: (a) a worker may die with a thread at any program "
+    "point; dist_once_with_crashes: crashes (with the scheduler freeing the dead worker's lock lease) anywhere OUTSIDE "
+    "the publication window - the three steps between the service's answer to create_multipart_upload and "
+    "shared_state.set(id) - any number of times in any schedule keep every guarantee of dist_once (crash_inv by cases "
+    "over all program points; a crash without lease expiry is a schedule that stops scheduling the thread: already "
+    "in dist_once); inside the window the exactly-once claim is provably lost (dist_crash_in_window_cex, "
+    "dist_crash_before_publish_cex, local_crash_before_setid_cex): a second upload is initiated, the first stays on the "
+    "service as an orphan WITHOUT parts, everything else goes under the second one (recovery oracle on every "
+    "interleaving of the real code with the thread killed inside the fake service's create call).  A worker dying "
+    "between upload_part and returning its record is inside local_once / dist_once (Cfg.crashCall; "
+    "dist_lost_result_retry, local_lost_result_retry): the re-run uploads the part again under the same id.  (b) "
+    "MPUFileSink.finalise interrupted after k parts (Sink.finaliseCrash; sink_crash_keeps_all_bytes: destination = "
+    "first k parts, the rest still on disk, nothing lost or twice; sink_finalise_retry_after_crash_cex: finalise is NOT "
+    "restartable - FileNotFoundError, the destination stays a strict prefix under its final name), replayed on the "
+    "real sink with the failure injected at Path.rename / Path.stat for every k of 1..4 parts.  (c) list_active asks for "
+    "ONE page (cancelAllPagedN; cancel_all_pages, cancel_all_within_page, cancel_all_one_page_cex): with more active "
+    "uploads of the key than the service lists per request (1000 on S3) one cancel('all') leaves the rest active - a "
+    "LIMIT of the code as it is, compared with the fake service paging by 2 / 3, recorded, not judged.  (d) thorough "
+    "tier: four first writes in both variants with context switches at the lock and the create call; the evidence "
+    "notes list every interleaving class enumerated exhaustively (with its switch points and count) and every class "
+    "only sampled.  (e) MultiPartUpload.read(**kw) judged by an argument / result oracle.",
     "note": "Trusted: Lean kernel + {propext, Classical.choice, Quot.sound}; the fakes at the client boundary "
     "(S3 client, distributed.get_client/Variable/Lock, the module dict _s3._state and the Lock constructor "
     "_s3.Lock, the open/Path names seen by _mpu_fs under the short-write fault model, an observable uploadId "
@@ -130,8 +150,12 @@ META = {
     "inside a race and on a cluster (sequential in-process only); _build_name's tokenize (names are abstract numbers; "
     "agreement across interpreter processes and difference across objects are checked on the real code); a swallowed "
     "timeout of the SECOND Variable.get (outside the theorems: _cex) and exceptions other than timeouts in _safe_get; "
-    "two objects at once in ONE process (they share the process-wide lock; oracle-free: not modelled); no positive "
-    "theorem for several objects on a cluster (only the _cex and the correspondence); the service's rules in Up are a "
+    "two objects at once in ONE process (they share the process-wide lock: not modelled) and a positive theorem for "
+    "several objects on a cluster (only the _cex and the correspondence) - both need the per-object generalisation of "
+    "the invariants (ids are numbered globally in the model, so the product refinement holds only up to renaming); "
+    "_ensure_init(final_write=True) inside a race; a crash in the MIDDLE of appending one part (finaliseCrash is "
+    "part-granular); crash of the in-process variant other than at the two injected points (an exception anywhere in a "
+    "`with` block releases the lock: equal to the cluster crash transition, not proved separately); the service's rules in Up are a "
     "specification of S3, validated against nothing but the fake; _shared's lazy Variable creation race (benign: same "
     "name); "
     "MPUFileSink._ensure_dst_file's mkdir race (FileExistsError swallowed), the assert nb == len(data) in __call__ "
@@ -235,7 +259,17 @@ def check_run(R: Run, variant: str, kinds, workers, gate: bool, obs: Dict[str, A
         R.oracle(False, f"{variant}:earlier-attempt-raises", case, f"a phase of the history raised {obs['pre_error']}",
                  trivial=True)
     if oracle is None:
-        return  # correspondence only: the property is provably out of reach there (a `_cex` theorem says why)
+        # correspondence only: the property is provably out of reach there (a `_cex` theorem says why) ...
+        if any("X" in "".join(k.split("!")[1:]) for k in kinds) and not obs["deadlock"]:
+            # ... but after a crash inside the publication window the protocol recovers: one orphaned upload without
+            # parts, everything else under ONE further upload, nobody else fails
+            killed = [i for i, o in enumerate(outs) if o == "Killed"]
+            ok = obs["ncreate"] == 1 + len(killed) and len(set(obs["used_ids"])) <= 1 and \
+                all(u == obs["ids"][-1] for u in obs["used_ids"]) and \
+                all(o in ("ok", "Killed") for o in outs) and obs["lock"] is None
+            R.oracle(ok, f"{variant}:no-recovery-after-crash-in-publication-window", case,
+                     f"outcomes {outs}, uploads created {obs['ids']}, ids used {obs['used_ids']}, lock {obs['lock']}")
+        return
     if not oracle:
         pre_delete_oracle(R, variant, case, obs)
         return
@@ -244,11 +278,15 @@ def check_run(R: Run, variant: str, kinds, workers, gate: bool, obs: Dict[str, A
              f"threads {outs}, lock holder {obs['lock']} after a complete schedule", trivial=True)
     # threads whose own storage call was made to fail ("!g" / "!G" are swallowed Variable.get timeouts, not failures)
     faulty = {i for i, k in enumerate(kinds) if any(c in "".join(k.split("!")[1:]) for c in "cu")}
+    # threads that die at an injected crash point ("!x": right after their upload_part / complete call was carried out)
+    dying = {i for i, k in enumerate(kinds) if "x" in "".join(k.split("!")[1:])}
     odd = sorted({o for i, o in enumerate(outs)
-                  if o not in ("ok", "running", "AssertionError") and not (i in faulty and o == "TransientError")})
+                  if o not in ("ok", "running", "AssertionError") and not (i in faulty and o == "TransientError")
+                  and not (i in dying and o == "Killed")})
     R.oracle(not odd, f"{variant}:write-raises-{'-'.join(odd) or 'other-exception'}", case,
              f"thread outcomes {outs} ({obs['text'][-200:]})", trivial=True)
-    R.oracle(all(o in ("ok", "running") or (i in faulty and o == "TransientError") for i, o in enumerate(outs))
+    R.oracle(all(o in ("ok", "running") or (i in faulty and o == "TransientError") or (i in dying and o == "Killed")
+                 for i, o in enumerate(outs))
              or bool(odd), f"{variant}:write-fails-in-initiation-race", case,
              f"thread outcomes {outs} ({obs['text'][-200:]})")
     R.oracle(obs["ncreate"] == 1, f"{variant}:not-exactly-one-upload-initiated", case,
@@ -266,7 +304,8 @@ def check_run(R: Run, variant: str, kinds, workers, gate: bool, obs: Dict[str, A
             want = repr({"PartNumber": p, "ETag": f"etag{p}"})
             # a part is uploaded once per write of it that returned (a write whose own call was made to fail
             # uploads nothing; its retry does)
-            n_ok = sum(1 for j, kk in enumerate(kinds) if kk.split("!")[0] == k and outs[j] == "ok")
+            n_ok = sum(1 for j, kk in enumerate(kinds) if kk.split("!")[0] == k and
+                       (outs[j] == "ok" or (j in dying and outs[j] == "Killed")))  # a dying thread's call was carried out
             ok_parts = ok_parts and sum(1 for (q, _) in obs["uploads"] if q == p) == n_ok
         if outs[i] == "ok":
             ok_parts = ok_parts and obs["results"][i] == want
@@ -386,6 +425,8 @@ def _schedules(R: Run, S, procs, pool, xnames=None):
             hot["on"] = True
 
     side: List[Any] = []  # (model line, real text) of runs scheduled at internal steps: soft tie, see `side_report`
+    enumerated: List[str] = []  # interleaving classes enumerated EXHAUSTIVELY (all maximal schedules at the switch points)
+    sampled: List[str] = []     # classes only SAMPLED (random schedules)
     STATE_OPS = frozenset({"ssd", "sset", "sitem", "sin"})
 
     def exhaustive(variant, kinds, workers, coarse, tag, gate=False, oracle=True):
@@ -402,6 +443,8 @@ def _schedules(R: Run, S, procs, pool, xnames=None):
         for o in obs:
             check_run(R, variant, kinds, workers, gate, o, tag, oracle, xset=xs)
         R.count(f"schedules:{variant}:{tag}:{'+'.join(kinds)}:{workers}", len(obs))
+        enumerated.append(f"{variant} {'+'.join(kinds)} workers={workers} [{tag}] switch@{'/'.join(sorted(xs))}: {len(obs)}"
+                          + (" (TRUNCATED)" if truncated else ""))
         early_mismatch(n0)
         # 2. a finer enumeration was asked for (context switches at reads / writes of uploadId, private state):
         # oracle on every run; agreement with the model's internal steps is recorded, not enforced
@@ -412,6 +455,9 @@ def _schedules(R: Run, S, procs, pool, xnames=None):
             for o in obs:
                 check_run(R, variant, kinds, workers, gate, o, tag + "|internal-steps", oracle, side=side)
             R.count(f"schedules-internal:{variant}:{tag}:{'+'.join(kinds)}:{workers}", len(obs))
+            enumerated.append(f"{variant} {'+'.join(kinds)} workers={workers} [{tag}] switch@"
+                              f"{'every-step' if coarse is None else '/'.join(sorted(coarse))} (oracle only): {len(obs)}"
+                              + (" (TRUNCATED)" if truncated else ""))
 
     def rand(variant, kinds, workers, n, gate=False, oracle=True):
         if failing() or hot["on"]:
@@ -419,6 +465,8 @@ def _schedules(R: Run, S, procs, pool, xnames=None):
         seeds = [R.rng.randrange(1 << 60) for _ in range(n)]
         for o in S.random_runs(kinds, workers, seeds, procs=procs, gate_fin=gate, pool=pool):
             check_run(R, variant, kinds, workers, gate, o, "random-fine", oracle, side=side)
+        sampled.append(f"{variant} {'+'.join(kinds)} workers={workers}"
+                       + (f" objects={gate['objects']}" if isinstance(gate, dict) and gate.get("objects") else "") + f": {n} random")
 
     # ---- in-process variant: every interleaving of two threads at the finest granularity
     # (the process-wide lock does not exist at the start: its lazy creation is part of the race)
@@ -441,6 +489,12 @@ def _schedules(R: Run, S, procs, pool, xnames=None):
             if (wi + R.seed) % 3 == 2:
                 continue  # two of the three placements per run, rotating with the seed
             exhaustive("dist", ["w1", "w2", "w3"], workers, C2, "coarse3")
+        # four threads, the smallest scenario (four first writes), context switches where the initiation race is
+        # decided: at the lock and at the create call
+        AC = frozenset({"acq", "create"})
+        exhaustive("local", ["w1", "w2", "w3", "w4"], None, AC, "four-threads")
+        exhaustive("dist", ["w1", "w2", "w3", "w4"], [0, 1, 2, 3], AC, "four-threads")
+        exhaustive("dist", ["w1", "w2", "w3", "w4"], [0, 0, 1, 1], AC, "four-threads")
     # ---- histories: state carried across attempts in one process / on one scheduler.  Earlier phases run
     # sequentially, then every interleaving of the attempt is explored; oracle = the attempt initiates exactly
     # one upload of its own and everything goes under it.  The client appears / disappears between phases.
@@ -514,6 +568,18 @@ def _schedules(R: Run, S, procs, pool, xnames=None):
     else:
         exhaustive("dist", ["w1", "w1"], [0, 0], C2 if R.quick else S.COARSE, "objects:2", gate={"objects": [0, 1]})
         exhaustive("dist", ["w1", "w1"], [0, 1], C2 if R.quick else S.COARSE, "objects:2", gate={"objects": [0, 1]})
+    # ---- crash points.  "!x": a thread dies right after the service carried out its upload_part (the record is
+    # lost, the task is re-run elsewhere) - inside local_once / dist_once (Cfg.crashCall), full oracle.  "!X": it dies
+    # right after the service created the upload, before the id is stored / published - the exactly-once claim is
+    # provably lost (local_crash_before_setid_cex, dist_crash_before_publish_cex): correspondence + recovery oracle
+    exhaustive("local", ["w1!x", "w2", "w1"], None, S.COARSE, "crash:lost-result+retry", gate={"after": {"2": [0]}})
+    exhaustive("dist", ["w1!x", "w2", "w1"], [0, 1, 2], S.COARSE, "crash:lost-result+retry", gate={"after": {"2": [0]}})
+    exhaustive("local", ["w1!X", "w2", "w1"], None, S.COARSE, "crash:window+retry", gate={"after": {"2": [0]}}, oracle=None)
+    exhaustive("dist", ["w1!X", "w2", "w1"], [0, 1, 2], S.COARSE, "crash:window+retry", gate={"after": {"2": [0]}},
+               oracle=None)
+    if not R.quick:
+        exhaustive("dist", ["w1!X", "w2", "w1", "f"], [0, 1, 0, 1], S.COARSE, "crash:window+retry+finalise",
+                   gate={"gate": True, "after": {"2": [0]}}, oracle=None)
     # ---- names computed by the real code in separate interpreter processes (distinct hash salts) feed the
     # shared Variable / Lock store: worker w uses the names child process w asked for
     if xnames:
@@ -549,6 +615,10 @@ def _schedules(R: Run, S, procs, pool, xnames=None):
         rand("dist", ["w1", "w1", "w1"], [0, 0, 1], n // 4, gate={"objects": [0, 1, 2]})
         rand("dist", ["w1", "w2", "f", "w1"], [0, 1, 0, 1], n // 4, gate={"objects": [0, 0, 0, 1], "gate": True})
     side_report(R, side)
+    R.notes.append("interleaving classes ENUMERATED EXHAUSTIVELY (every maximal schedule with context switches at the "
+                   "listed operations; count): " + " | ".join(enumerated))
+    R.notes.append("interleaving classes only SAMPLED (random schedules at every step, with stutter steps): "
+                   + " | ".join(sampled))
     rand("dist", ["w1!gG", "w2!G", "w3"], [0, 1, 1], n // 4, oracle=None)
 
 
@@ -811,6 +881,11 @@ def glue_cases(R: Run):
                          and all(v is None for _, v in out["log"]), "glue:writer-prepared-with-wrong-client", case,
                          f"mpu.writer(kw{', client=c' if explicit else ''}) with{'' if ambient else 'out'} an ambient dask "
                          f"client: prepared with {out['text']} (expected {want}), Variable.set calls {out['log']}")
+    rd = guarded(lambda: repr(S.run_read()))
+    want_rd = repr({"whole": b"the object", "part": b"ranged:bytes=0-3",
+                    "args": [{"Bucket": "bucket", "Key": "some/key.tif", "kw": {}},
+                             {"Bucket": "bucket", "Key": "some/key.tif", "kw": {"Range": "bytes=0-3"}}]})
+    R.oracle(rd == want_rd, "glue:read-does-not-return-the-object", {"fn": "MultiPartUpload.read"}, f"{rd}", trivial=True)
     extras = [{}, {"mk_header": (lambda *_: b"h"), "mk_footer": (lambda *_: b"f"), "user_kw": {"a": 1}, "writes_per_chunk": 3},
               {"ContentType": "image/tiff", "ACL": "private"}, {"writes_per_chunk": 2, "ContentType": "x/y"}]
     for spill in (0, 1, 4096, 5 * 2 ** 20, 20 * 2 ** 20, R.rng.randint(2, 1 << 40)):
@@ -1485,6 +1560,135 @@ def sink_seq_cases(R: Run, root: Path):
         sink_seq_case(R, root, specs, ops, [form() for _ in specs], "random" + ("|shared-parts-dir" if shared else ""))
 
 
+# ------------------------------------------------------------------ crash during MPUFileSink.finalise; paged listing
+class CrashPath(type(Path())):
+    """`Path` as `odc.geo.cog._mpu_fs` sees it, with an injected failure: the `budget`-th call of rename / stat (the
+    calls that open the handling of the next listed part) raises - the process is gone at that point"""
+    budget = None
+    fired = False
+
+    def _tick(self):
+        cls = type(self)
+        if cls.budget is not None:
+            if cls.budget == 0:
+                cls.budget = None
+                cls.fired = True
+                raise Killed_()
+            cls.budget -= 1
+
+    def rename(self, target):
+        self._tick()
+        return super().rename(target)
+
+    def stat(self, *a, **kw):
+        self._tick()
+        return super().stat(*a, **kw)
+
+
+class Killed_(BaseException):
+    pass
+
+
+def sink_crash_cases(R: Run, root: Path):
+    """finalise interrupted after k of the listed parts (model `Sink.finaliseCrash`, theorem sink_crash_keeps_all_bytes):
+    the destination is the concatenation of the first k parts, the others are still there - nothing lost, nothing
+    twice; then a second finalise of the same list (sink_finalise_retry_after_crash_cex: not restartable)"""
+    from odc.geo.cog import _mpu_fs
+
+    rng = R.rng
+    old_path = getattr(_mpu_fs, "Path", None)
+    if old_path is None or not (isinstance(old_path, type) and issubclass(type(Path()), old_path)):
+        R.notes.append("sink crash stream skipped: odc.geo.cog._mpu_fs does not go through pathlib.Path")
+        return
+    for n in (1, 2, 3, 4):
+        for k in range(0, n + 1):
+            for order in ("asc", "desc"):
+                nums = list(range(1, n + 1))
+                writes = [(p, "".join(rng.choice(LETTERS) for _ in range(rng.choice([0, 1, 2, 3])))) for p in nums]
+                plist = nums if order == "asc" else nums[::-1]
+                work = Path(tempfile.mkdtemp(dir=root))
+                dst = work / "out.bin"
+                st: Dict[str, Any] = {}
+
+                def real():
+                    sink = _mpu_fs.MPUFileSink(dst)
+                    recs = {p: sink(p, d.encode()) for p, d in writes}
+                    pdir = Path(recs[nums[0]]["Path"]).parent
+                    _mpu_fs.Path = CrashPath
+                    CrashPath.budget, CrashPath.fired = k, False
+                    try:
+                        sink.finalise([recs[p] for p in plist])
+                        st["finished"] = True
+                    except Killed_:
+                        st["finished"] = False
+                    finally:
+                        CrashPath.budget = None
+                        _mpu_fs.Path = old_path
+                    content = dst.read_bytes().decode() if dst.is_file() else None
+                    left = parts_left(pdir, recs) if pdir.is_dir() else []
+                    had_dir = pdir.is_dir()
+                    st.update(content=content, left=left, fired=CrashPath.fired)
+                    # the retry: the same finalise once more
+                    try:
+                        sink.finalise([recs[p] for p in plist])
+                        st["retry"] = "ok"
+                    except FileNotFoundError:
+                        st["retry"] = "ERR:FileNotFoundError"
+                    except Exception as e:  # pylint: disable=broad-except
+                        st["retry"] = "ERR:" + type(e).__name__
+                    st["retry_content"] = dst.read_bytes().decode() if dst.is_file() else None
+                    return (f"dst{'N' if content is None else '=' + content} ; "
+                            f"parts={list_s([f'{p}:{d}' for p, d in left])} ; dir={'T' if had_dir else 'F'}")
+
+                out = guarded(real)
+                shutil.rmtree(work, ignore_errors=True)
+                if k < n and not st.get("fired"):
+                    R.notes.append("sink crash stream: the injected failure did not fire (finalise no longer uses "
+                                   "Path.rename / Path.stat): stream skipped")
+                    return
+                if k == n:
+                    continue  # the budget outlives the parts: an ordinary complete finalise (covered elsewhere)
+                R.corr(f"c18 sinkcrash {list_s([f'{p}:{d}' for p, d in writes])} {list_s(plist)} {k}", lambda: out,
+                       sig=f"sink-crash|k={k}|n={n}")
+                case = {"writes": writes, "parts": plist, "crash_after": k}
+                last = dict(writes)
+                whole = "".join(last[p] for p in plist)
+                have = (st.get("content") or "") + "".join(d for p, d in sorted(st.get("left", []), key=lambda x: plist.index(x[0]) if x[0] in plist else 99))
+                R.oracle(have == whole and (st.get("content") or "") == "".join(last[p] for p in plist[:k]),
+                         "sink:crash-loses-or-duplicates-bytes", case,
+                         f"after a crash past {k} of {plist}: destination {st.get('content')!r}, part files left "
+                         f"{st.get('left')}, all data {whole!r}")
+                if k >= 1:
+                    # finding material (not judged): finalise is not restartable
+                    R.count("sink-crash:retry:" + str(st.get("retry")))
+
+
+def paging_cases(R: Run):
+    """`cancel("all")` against a service that lists `page` uploads per request (S3: 1000) while `n` orphaned uploads of
+    the key are active - `list_active` does not follow the continuation markers (model cancelAllPagedN,
+    cancel_all_pages / cancel_all_one_page_cex): a LIMIT of the code as it is, recorded, not judged"""
+    from . import c18_sched as S
+
+    for page, n, m in ((3, 0, 1), (3, 2, 1), (3, 3, 1), (3, 4, 1), (3, 5, 1), (3, 5, 2), (2, 7, 3), (2, 7, 4), (1000, 6, 1)):
+        out: Dict[str, Any] = {}
+
+        def real():
+            out.update(S.run_paged_cancel(page, n, m))
+            return out["text"]
+
+        if n <= page:
+            R.corr(f"c18 seqpage {page} {n} {m}", real, sig="paged-cancel|within-page")
+        else:
+            # beyond one page the code's behaviour is a limit, not a guarantee: code that follows the continuation
+            # markers is an improvement - recorded in the notes, never a violation
+            SOFT.add(f"c18 seqpage {page} {n} {m}", real, "cancel('all') beyond one page of the listing")
+        if out and n <= page * m and n <= page:
+            R.oracle(not out["active"] and out["error"] is None and out["uid"] == "", "seq:cancel-all-leaves-uploads-within-pages",
+                     {"page": page, "active": n, "calls": m}, f"{out}")
+        elif out:
+            R.count(f"paged-cancel:left-active:{len(out['active'])}-of-{n}")
+
+
 # ------------------------------------------------------------------ limits
 KW = ["min_write_sz", "max_write_sz", "min_part", "max_part"]
 
@@ -1618,6 +1822,8 @@ def run(R: Run):
         sink_cases(R, root)
         multi_sink_cases(R, root)
         sink_seq_cases(R, root)
+        sink_crash_cases(R, root)
+        paging_cases(R)
         seq_cases(R)
         up_cases(R)
         glue_cases(R)
